@@ -157,6 +157,20 @@ impl LuaEngine {
             globals.set(*func, mlua::Nil).map_err(|e| FerrousError::LuaError(e.to_string()))?;
         }
         
+        // Precompiled Lua (bytecode) is not verified by the VM and must not be
+        // loadable from scripts: string.dump is removed and loadstring refuses
+        // binary chunks (they start with the escape character)
+        lua.load(r#"
+            string.dump = nil
+            local plain_loadstring = loadstring
+            loadstring = function(chunk, name)
+                if type(chunk) == 'string' and chunk:byte(1) == 27 then
+                    return nil, 'binary chunks are not allowed'
+                end
+                return plain_loadstring(chunk, name)
+            end
+        "#).exec().map_err(|e| FerrousError::LuaError(e.to_string()))?;
+        
         // Create Redis API using unified command processing
         let redis_table = lua.create_table().map_err(|e| FerrousError::LuaError(e.to_string()))?;
         
@@ -253,7 +267,8 @@ impl LuaEngine {
                     is_pcall
                 );
             }
-            "CONFIG" | "SHUTDOWN" | "DEBUG" | "ACL" => {
+            "CONFIG" | "SHUTDOWN" | "DEBUG" | "ACL" | "SAVE" | "BGSAVE" | "BGREWRITEAOF" | "LASTSAVE"
+            | "REPLICAOF" | "SLAVEOF" | "SYNC" | "PSYNC" | "REPLCONF" => {
                 return Self::handle_command_error_with_context(
                     lua_ctx,
                     format!("'{}' administrative command is not allowed inside Lua scripts", cmd_name),
